@@ -533,8 +533,11 @@ pub fn read_tiny(bytes: &[u8], n: usize) -> Result<MapSet, String> {
         Ok(())
     }
     while let Some(l) = it.next() {
-        if l.indent != 0 || l.fields[0] != "c" {
-            return Err(format!("line {}: expected a class section", l.no));
+        if l.indent != 0 {
+            return Err(format!("line {}: indentation", l.no));
+        }
+        if l.fields[0] != "c" {
+            continue; // unknown section: skipped (its children, if any, are an indentation error)
         }
         let nm = names(l, 1, n, valid_obj_class_name)?;
         let key = nm[0].clone().ok_or(format!("line {}: class without source name", l.no))?;
@@ -574,16 +577,18 @@ pub fn read_tiny(bytes: &[u8], n: usize) -> Result<MapSet, String> {
                                 while let Some(l) = it.peek().filter(|l| l.indent >= 3) {
                                     let l = *l;
                                     it.next();
-                                    if l.indent != 3 || l.fields[0] != "c" {
-                                        return Err(format!("line {}: expected parameter comment", l.no));
+                                    if l.indent != 3 {
+                                        return Err(format!("line {}: indentation", l.no));
                                     }
-                                    comment(l, &mut p.doc)?;
+                                    if l.fields[0] == "c" {
+                                        comment(l, &mut p.doc)?;
+                                    }
                                 }
                                 if me.params.insert(idx, p).is_some() {
                                     return Err(format!("line {}: duplicate parameter", l.no));
                                 }
                             }
-                            _ => return Err(format!("line {}: unknown member sub-section", l.no)),
+                            _ => {} // unknown sub-section: skipped
                         }
                     }
                     let map = if is_f { &mut c.fields } else { &mut c.methods };
@@ -591,7 +596,7 @@ pub fn read_tiny(bytes: &[u8], n: usize) -> Result<MapSet, String> {
                         return Err(format!("line {}: duplicate member", l.no));
                     }
                 }
-                _ => return Err(format!("line {}: unknown class sub-section", l.no)),
+                _ => {} // unknown sub-section: skipped
             }
         }
         if m.classes.insert(key, c).is_some() {
